@@ -107,8 +107,17 @@ class ivmpf(object):
     __gt__ = _compare
     __ge__ = _compare
 
+    def _operand(self, t):
+        # A Python int or float is an exact number: it is compared as it
+        # is, not as an enclosure rounded to the working precision
+        if isinstance(t, int_types) or isinstance(t, float):
+            v = convert_mpf_(t, 0, round_floor)
+            if v != fnan:
+                return self.ctx.make_mpf((v, v))
+        return self.ctx.convert(t)
+
     def __contains__(self, t):
-        t = self.ctx.mpf(t)
+        t = self._operand(t)
         if hasattr(t, '_mpci_'):
             # a complex number lies on the real line only if its
             # imaginary part is exactly zero
@@ -133,7 +142,7 @@ class ivmpf(object):
     def _compare(s, t, cmpfun):
         if not hasattr(t, "_mpi_"):
             try:
-                t = s.ctx.convert(t)
+                t = s._operand(t)
             except:
                 return NotImplemented
             # complex intervals: leave the comparison to the other operand
